@@ -177,8 +177,13 @@ def run_check(spec, tier, seed):
     generated = list(spec.cases(rng, tier))
     allcases = corpus + generated
     lines, spans = [], []
-    for c in allcases:
-        ml = spec.model_lines(c)
+    unrunnable = {}      # case index -> why the harness could not even set the case up against the library
+    for ci, c in enumerate(allcases):
+        try:
+            ml = spec.model_lines(c)
+        except Exception as e:  # the library raised while the case was being prepared (e.g. while filling a queue)
+            ml = []
+            unrunnable[ci] = f'preparing the case against the library raised {type(e).__name__}: {e}'
         spans.append((len(lines) + 1, len(ml)))
         lines.append('reset')
         lines.extend(ml)
@@ -196,6 +201,8 @@ def run_check(spec, tier, seed):
     results = _evaluate_all(spec, allcases)
     for idx, c in enumerate(allcases):
         iout, f = results[idx]
+        if idx in unrunnable and f is None:
+            f = unrunnable[idx]
         k = spec.kind(c)
         hist[k] = hist.get(k, 0) + 1
         h = C.case_hash(c)
@@ -210,7 +217,9 @@ def run_check(spec, tier, seed):
         if model_out is not None:
             s, n = spans[idx]
             mout = model_out[s:s + n]
-            if mout != iout:
+            if idx in unrunnable:
+                pass
+            elif mout != iout:
                 if f is None:
                     j = next((j for j, (a, b) in enumerate(zip(mout, iout)) if a != b), min(len(mout), len(iout)))
                     mismatches.append((c, {'line': j,
@@ -333,7 +342,11 @@ def replay(spec, path):
     c = obj['case']
     iout = spec.safe_impl(c)
     print('case  :', spec.describe(c))
-    ml = spec.model_lines(c)
+    try:
+        ml = spec.model_lines(c)
+    except Exception as e:
+        print(f'preparing the case against the library raised {type(e).__name__}: {e}')
+        ml = []
     try:
         mout = C.Driver(spec.MODEL).run(['reset'] + ml)[1:]
     except Exception as e:
